@@ -38,6 +38,13 @@ pub struct Wal {
 
 	/// A flag indicating whether the WAL instance is closed or not.
 	closed: bool,
+
+	/// Set when an append, flush or sync failed. The writer's buffer and block offset
+	/// are then out of step with the file (a failed record, or part of it, may be
+	/// buffered or already written), so nothing more is written through this
+	/// instance: later appends fail, and close does not flush. Recovery at the next
+	/// open cuts the torn tail off.
+	failed: bool,
 }
 
 impl Wal {
@@ -65,6 +72,7 @@ impl Wal {
 			dir: dir.to_path_buf(),
 			opts,
 			closed: false,
+			failed: false,
 		})
 	}
 
@@ -128,6 +136,7 @@ impl Wal {
 			dir: dir.to_path_buf(),
 			opts,
 			closed: false,
+			failed: false,
 		})
 	}
 
@@ -384,7 +393,11 @@ impl Wal {
 
 		log::trace!("WAL append: log_number={}, bytes={}", self.active_log_number, rec.len());
 
-		self.active_writer.add_record(rec)?;
+		self.check_not_failed()?;
+		if let Err(e) = self.active_writer.add_record(rec) {
+			self.fail();
+			return Err(e);
+		}
 
 		// Return 0 for now (offset tracking can be added if needed)
 		Ok(0)
@@ -394,7 +407,27 @@ impl Wal {
 		if self.closed {
 			return Ok(());
 		}
-		self.active_writer.sync()
+		self.check_not_failed()?;
+		let res = self.active_writer.sync();
+		if res.is_err() {
+			self.fail();
+		}
+		res
+	}
+
+	fn check_not_failed(&self) -> Result<()> {
+		if self.failed {
+			return Err(Error::IO(IOError::new(
+				io::ErrorKind::Other,
+				"an earlier WAL write failed; the store must be reopened",
+			)));
+		}
+		Ok(())
+	}
+
+	fn fail(&mut self) {
+		self.failed = true;
+		self.active_writer.abandon_buffer();
 	}
 
 	/// Flushes buffered WAL data to OS cache (not to disk).
@@ -403,7 +436,12 @@ impl Wal {
 		if self.closed {
 			return Ok(());
 		}
-		self.active_writer.write_buffer()
+		self.check_not_failed()?;
+		let res = self.active_writer.write_buffer();
+		if res.is_err() {
+			self.fail();
+		}
+		res
 	}
 
 	/// Returns a clone of the sync file descriptor Arc.
@@ -426,8 +464,11 @@ impl Wal {
 
 		self.closed = true;
 
-		// Sync and close the active writer (already fsyncs file data)
-		self.active_writer.close()?;
+		// Sync and close the active writer (already fsyncs file data). After a failed
+		// write there is nothing valid left to flush (see `failed`).
+		if !self.failed {
+			self.active_writer.close()?;
+		}
 
 		// Fsync the directory to persist metadata changes
 		crate::lsm::fsync_directory(&self.dir)
@@ -451,7 +492,11 @@ impl Wal {
 	pub(crate) fn rotate(&mut self) -> Result<u64> {
 		let old_log_number = self.active_log_number;
 
-		self.active_writer.sync()?;
+		self.check_not_failed()?;
+		if let Err(e) = self.active_writer.sync() {
+			self.fail();
+			return Err(e);
+		}
 
 		// Update the log number
 		self.active_log_number += 1;
@@ -513,7 +558,11 @@ impl WalManager {
 			wal.flush()?;
 			wal.sync_fd()
 		};
-		sync_fd.sync_all().map_err(|e| Error::IO(IOError::new(e.kind(), &e.to_string())))?;
+		if let Err(e) = sync_fd.sync_all() {
+			// What reached the disk is unknown now: stop writing through this instance
+			self.inner.write().fail();
+			return Err(Error::IO(IOError::new(e.kind(), &e.to_string())));
+		}
 		Ok(())
 	}
 
